@@ -285,11 +285,11 @@ func secretsValidAt(spec *SysSpec, h *HMACSpec, at time.Time) [][]byte {
 			if sc.ID != ref {
 				continue
 			}
-			from := Epoch.Add(time.Duration(sc.ValidFrom) * time.Second)
+			from := spec.secAt(sc.ValidFrom)
 			if at.Before(from) {
 				continue
 			}
-			if sc.ValidUntil != nil && !at.Before(Epoch.Add(time.Duration(*sc.ValidUntil)*time.Second)) {
+			if sc.ValidUntil != nil && !at.Before(spec.secAt(*sc.ValidUntil)) {
 				continue
 			}
 			out = append(out, []byte(sc.Value))
